@@ -100,7 +100,7 @@ def run(ctx):
     hooks.attach_m4b()
     old = sys.getswitchinterval()
     try:
-        for rnd in range(4 if quick else 40):
+        for rnd in range(4 if quick else 100):
             t = rng.choice(["default", "hypervalent", "octet_rule", tablegen.random_table(rng, q=rng.choice([4, 8]))])
             sf.set_semantic_constraints(t)
             table = sf.get_semantic_constraints()
